@@ -285,6 +285,7 @@ package bpmn
 
 //@ func (*FlowNodeMapping).RegisterElementToFlowNode
 //@   prop C17
+//@   flag countcalls
 //@   flag entrylocks
 //@   requires held(mu(mapping.lock)) == 2
 //@   ensures held(mu(mapping.lock)) == 2
@@ -1157,6 +1158,46 @@ package bpmn
 //@   flag emits opaque
 //@   flag allocs
 //@   ensures result1 == nil ==> result0 != nil && fresh(result0)
+//@   prop C01 C12
+//@   assert before "process.flowNodeMapping.Finalize()" [every-flow-node-of-every-kind-gets-its-node-registered-exactly-once]
+//@             ndirect(code("(*FlowNodeMapping).RegisterElementToFlowNode")) == old(ndirect(code("(*FlowNodeMapping).RegisterElementToFlowNode"))) +
+//@             len(*processElem.StartEvents()) + len(*processElem.EndEvents()) + len(*processElem.IntermediateCatchEvents()) + len(*processElem.IntermediateThrowEvents()) + len(*processElem.Tasks()) + len(*processElem.BusinessRuleTasks()) + len(*processElem.CallActivities()) + len(*processElem.ManualTasks()) + len(*processElem.ServiceTasks()) + len(*processElem.UserTasks()) + len(*processElem.ReceiveTasks()) + len(*processElem.ScriptTasks()) + len(*processElem.SendTasks()) + len(*processElem.SubProcesses()) + len(*processElem.ExclusiveGateways()) + len(*processElem.InclusiveGateways()) + len(*processElem.ParallelGateways()) + len(*processElem.EventBasedGateways())
+//@   loop 1 range *processElem.StartEvents()
+//@     invariant ndirect(code("(*FlowNodeMapping).RegisterElementToFlowNode")) == old(ndirect(code("(*FlowNodeMapping).RegisterElementToFlowNode"))) + rk1
+//@   loop 2 range *processElem.EndEvents()
+//@     invariant ndirect(code("(*FlowNodeMapping).RegisterElementToFlowNode")) == old(ndirect(code("(*FlowNodeMapping).RegisterElementToFlowNode"))) + len(*processElem.StartEvents()) + rk2
+//@   loop 3 range *processElem.IntermediateCatchEvents()
+//@     invariant ndirect(code("(*FlowNodeMapping).RegisterElementToFlowNode")) == old(ndirect(code("(*FlowNodeMapping).RegisterElementToFlowNode"))) + len(*processElem.StartEvents()) + len(*processElem.EndEvents()) + rk3
+//@   loop 4 range *processElem.IntermediateThrowEvents()
+//@     invariant ndirect(code("(*FlowNodeMapping).RegisterElementToFlowNode")) == old(ndirect(code("(*FlowNodeMapping).RegisterElementToFlowNode"))) + len(*processElem.StartEvents()) + len(*processElem.EndEvents()) + len(*processElem.IntermediateCatchEvents()) + rk4
+//@   loop 5 range *processElem.Tasks()
+//@     invariant ndirect(code("(*FlowNodeMapping).RegisterElementToFlowNode")) == old(ndirect(code("(*FlowNodeMapping).RegisterElementToFlowNode"))) + len(*processElem.StartEvents()) + len(*processElem.EndEvents()) + len(*processElem.IntermediateCatchEvents()) + len(*processElem.IntermediateThrowEvents()) + rk5
+//@   loop 6 range *processElem.BusinessRuleTasks()
+//@     invariant ndirect(code("(*FlowNodeMapping).RegisterElementToFlowNode")) == old(ndirect(code("(*FlowNodeMapping).RegisterElementToFlowNode"))) + len(*processElem.StartEvents()) + len(*processElem.EndEvents()) + len(*processElem.IntermediateCatchEvents()) + len(*processElem.IntermediateThrowEvents()) + len(*processElem.Tasks()) + rk6
+//@   loop 7 range *processElem.CallActivities()
+//@     invariant ndirect(code("(*FlowNodeMapping).RegisterElementToFlowNode")) == old(ndirect(code("(*FlowNodeMapping).RegisterElementToFlowNode"))) + len(*processElem.StartEvents()) + len(*processElem.EndEvents()) + len(*processElem.IntermediateCatchEvents()) + len(*processElem.IntermediateThrowEvents()) + len(*processElem.Tasks()) + len(*processElem.BusinessRuleTasks()) + rk7
+//@   loop 8 range *processElem.ManualTasks()
+//@     invariant ndirect(code("(*FlowNodeMapping).RegisterElementToFlowNode")) == old(ndirect(code("(*FlowNodeMapping).RegisterElementToFlowNode"))) + len(*processElem.StartEvents()) + len(*processElem.EndEvents()) + len(*processElem.IntermediateCatchEvents()) + len(*processElem.IntermediateThrowEvents()) + len(*processElem.Tasks()) + len(*processElem.BusinessRuleTasks()) + len(*processElem.CallActivities()) + rk8
+//@   loop 9 range *processElem.ServiceTasks()
+//@     invariant ndirect(code("(*FlowNodeMapping).RegisterElementToFlowNode")) == old(ndirect(code("(*FlowNodeMapping).RegisterElementToFlowNode"))) + len(*processElem.StartEvents()) + len(*processElem.EndEvents()) + len(*processElem.IntermediateCatchEvents()) + len(*processElem.IntermediateThrowEvents()) + len(*processElem.Tasks()) + len(*processElem.BusinessRuleTasks()) + len(*processElem.CallActivities()) + len(*processElem.ManualTasks()) + rk9
+//@   loop 10 range *processElem.UserTasks()
+//@     invariant ndirect(code("(*FlowNodeMapping).RegisterElementToFlowNode")) == old(ndirect(code("(*FlowNodeMapping).RegisterElementToFlowNode"))) + len(*processElem.StartEvents()) + len(*processElem.EndEvents()) + len(*processElem.IntermediateCatchEvents()) + len(*processElem.IntermediateThrowEvents()) + len(*processElem.Tasks()) + len(*processElem.BusinessRuleTasks()) + len(*processElem.CallActivities()) + len(*processElem.ManualTasks()) + len(*processElem.ServiceTasks()) + rk10
+//@   loop 11 range *processElem.ReceiveTasks()
+//@     invariant ndirect(code("(*FlowNodeMapping).RegisterElementToFlowNode")) == old(ndirect(code("(*FlowNodeMapping).RegisterElementToFlowNode"))) + len(*processElem.StartEvents()) + len(*processElem.EndEvents()) + len(*processElem.IntermediateCatchEvents()) + len(*processElem.IntermediateThrowEvents()) + len(*processElem.Tasks()) + len(*processElem.BusinessRuleTasks()) + len(*processElem.CallActivities()) + len(*processElem.ManualTasks()) + len(*processElem.ServiceTasks()) + len(*processElem.UserTasks()) + rk11
+//@   loop 12 range *processElem.ScriptTasks()
+//@     invariant ndirect(code("(*FlowNodeMapping).RegisterElementToFlowNode")) == old(ndirect(code("(*FlowNodeMapping).RegisterElementToFlowNode"))) + len(*processElem.StartEvents()) + len(*processElem.EndEvents()) + len(*processElem.IntermediateCatchEvents()) + len(*processElem.IntermediateThrowEvents()) + len(*processElem.Tasks()) + len(*processElem.BusinessRuleTasks()) + len(*processElem.CallActivities()) + len(*processElem.ManualTasks()) + len(*processElem.ServiceTasks()) + len(*processElem.UserTasks()) + len(*processElem.ReceiveTasks()) + rk12
+//@   loop 13 range *processElem.SendTasks()
+//@     invariant ndirect(code("(*FlowNodeMapping).RegisterElementToFlowNode")) == old(ndirect(code("(*FlowNodeMapping).RegisterElementToFlowNode"))) + len(*processElem.StartEvents()) + len(*processElem.EndEvents()) + len(*processElem.IntermediateCatchEvents()) + len(*processElem.IntermediateThrowEvents()) + len(*processElem.Tasks()) + len(*processElem.BusinessRuleTasks()) + len(*processElem.CallActivities()) + len(*processElem.ManualTasks()) + len(*processElem.ServiceTasks()) + len(*processElem.UserTasks()) + len(*processElem.ReceiveTasks()) + len(*processElem.ScriptTasks()) + rk13
+//@   loop 14 range *processElem.SubProcesses()
+//@     invariant ndirect(code("(*FlowNodeMapping).RegisterElementToFlowNode")) == old(ndirect(code("(*FlowNodeMapping).RegisterElementToFlowNode"))) + len(*processElem.StartEvents()) + len(*processElem.EndEvents()) + len(*processElem.IntermediateCatchEvents()) + len(*processElem.IntermediateThrowEvents()) + len(*processElem.Tasks()) + len(*processElem.BusinessRuleTasks()) + len(*processElem.CallActivities()) + len(*processElem.ManualTasks()) + len(*processElem.ServiceTasks()) + len(*processElem.UserTasks()) + len(*processElem.ReceiveTasks()) + len(*processElem.ScriptTasks()) + len(*processElem.SendTasks()) + rk14
+//@   loop 15 range *processElem.ExclusiveGateways()
+//@     invariant ndirect(code("(*FlowNodeMapping).RegisterElementToFlowNode")) == old(ndirect(code("(*FlowNodeMapping).RegisterElementToFlowNode"))) + len(*processElem.StartEvents()) + len(*processElem.EndEvents()) + len(*processElem.IntermediateCatchEvents()) + len(*processElem.IntermediateThrowEvents()) + len(*processElem.Tasks()) + len(*processElem.BusinessRuleTasks()) + len(*processElem.CallActivities()) + len(*processElem.ManualTasks()) + len(*processElem.ServiceTasks()) + len(*processElem.UserTasks()) + len(*processElem.ReceiveTasks()) + len(*processElem.ScriptTasks()) + len(*processElem.SendTasks()) + len(*processElem.SubProcesses()) + rk15
+//@   loop 16 range *processElem.InclusiveGateways()
+//@     invariant ndirect(code("(*FlowNodeMapping).RegisterElementToFlowNode")) == old(ndirect(code("(*FlowNodeMapping).RegisterElementToFlowNode"))) + len(*processElem.StartEvents()) + len(*processElem.EndEvents()) + len(*processElem.IntermediateCatchEvents()) + len(*processElem.IntermediateThrowEvents()) + len(*processElem.Tasks()) + len(*processElem.BusinessRuleTasks()) + len(*processElem.CallActivities()) + len(*processElem.ManualTasks()) + len(*processElem.ServiceTasks()) + len(*processElem.UserTasks()) + len(*processElem.ReceiveTasks()) + len(*processElem.ScriptTasks()) + len(*processElem.SendTasks()) + len(*processElem.SubProcesses()) + len(*processElem.ExclusiveGateways()) + rk16
+//@   loop 17 range *processElem.ParallelGateways()
+//@     invariant ndirect(code("(*FlowNodeMapping).RegisterElementToFlowNode")) == old(ndirect(code("(*FlowNodeMapping).RegisterElementToFlowNode"))) + len(*processElem.StartEvents()) + len(*processElem.EndEvents()) + len(*processElem.IntermediateCatchEvents()) + len(*processElem.IntermediateThrowEvents()) + len(*processElem.Tasks()) + len(*processElem.BusinessRuleTasks()) + len(*processElem.CallActivities()) + len(*processElem.ManualTasks()) + len(*processElem.ServiceTasks()) + len(*processElem.UserTasks()) + len(*processElem.ReceiveTasks()) + len(*processElem.ScriptTasks()) + len(*processElem.SendTasks()) + len(*processElem.SubProcesses()) + len(*processElem.ExclusiveGateways()) + len(*processElem.InclusiveGateways()) + rk17
+//@   loop 18 range *processElem.EventBasedGateways()
+//@     invariant ndirect(code("(*FlowNodeMapping).RegisterElementToFlowNode")) == old(ndirect(code("(*FlowNodeMapping).RegisterElementToFlowNode"))) + len(*processElem.StartEvents()) + len(*processElem.EndEvents()) + len(*processElem.IntermediateCatchEvents()) + len(*processElem.IntermediateThrowEvents()) + len(*processElem.Tasks()) + len(*processElem.BusinessRuleTasks()) + len(*processElem.CallActivities()) + len(*processElem.ManualTasks()) + len(*processElem.ServiceTasks()) + len(*processElem.UserTasks()) + len(*processElem.ReceiveTasks()) + len(*processElem.ScriptTasks()) + len(*processElem.SendTasks()) + len(*processElem.SubProcesses()) + len(*processElem.ExclusiveGateways()) + len(*processElem.InclusiveGateways()) + len(*processElem.ParallelGateways()) + rk18
 
 // Looking up the waiting process of a message flow target reads the definitions only.
 //@ func (*ProcessSet).resolveWaitingProcessAndEvent
@@ -2015,3 +2056,50 @@ package bpmn
 //@   ensures [a-first-request-registers-exactly-one-sender-and-starts-the-loop] !old(oncedone(mu(gw.once))) ==>
 //@             count(Call, code("tracing|ITracer.RegisterSender")) == old(count(Call, code("tracing|ITracer.RegisterSender"))) + 1 &&
 //@             count(Spawn, code("(*inclusiveGateway).run")) == old(count(Spawn, code("(*inclusiveGateway).run"))) + 1
+
+// ---------------------------------------------------------------------------
+// Building the inner flow of an embedded sub-process: every flow node the sub-process element lists, of each of the
+// eighteen kinds, gets a node of its own registered in the inner flow node mapping (a kind that is left out is not
+// reported at build time — its tokens end with "not found" at run time and the content behind it is skipped silently,
+// which is not what the same content does inlined).
+//@ func newSubProcess$1
+//@   prop C12 C01
+//@   ensures [every-flow-node-of-every-kind-gets-its-node-registered-exactly-once] err == nil ==>
+//@             ndirect(code("(*FlowNodeMapping).RegisterElementToFlowNode")) == old(ndirect(code("(*FlowNodeMapping).RegisterElementToFlowNode"))) +
+//@             len(*subProcessElement.StartEvents()) + len(*subProcessElement.EndEvents()) + len(*subProcessElement.IntermediateCatchEvents()) + len(*subProcessElement.IntermediateThrowEvents()) + len(*subProcessElement.BusinessRuleTasks()) + len(*subProcessElement.CallActivities()) + len(*subProcessElement.Tasks()) + len(*subProcessElement.ManualTasks()) + len(*subProcessElement.ServiceTasks()) + len(*subProcessElement.UserTasks()) + len(*subProcessElement.ReceiveTasks()) + len(*subProcessElement.ScriptTasks()) + len(*subProcessElement.SendTasks()) + len(*subProcessElement.SubProcesses()) + len(*subProcessElement.ExclusiveGateways()) + len(*subProcessElement.InclusiveGateways()) + len(*subProcessElement.ParallelGateways()) + len(*subProcessElement.EventBasedGateways())
+//@   loop 1 range *subProcessElement.StartEvents()
+//@     invariant ndirect(code("(*FlowNodeMapping).RegisterElementToFlowNode")) == old(ndirect(code("(*FlowNodeMapping).RegisterElementToFlowNode"))) + rk1
+//@   loop 2 range *subProcessElement.EndEvents()
+//@     invariant ndirect(code("(*FlowNodeMapping).RegisterElementToFlowNode")) == old(ndirect(code("(*FlowNodeMapping).RegisterElementToFlowNode"))) + len(*subProcessElement.StartEvents()) + rk2
+//@   loop 3 range *subProcessElement.IntermediateCatchEvents()
+//@     invariant ndirect(code("(*FlowNodeMapping).RegisterElementToFlowNode")) == old(ndirect(code("(*FlowNodeMapping).RegisterElementToFlowNode"))) + len(*subProcessElement.StartEvents()) + len(*subProcessElement.EndEvents()) + rk3
+//@   loop 4 range *subProcessElement.IntermediateThrowEvents()
+//@     invariant ndirect(code("(*FlowNodeMapping).RegisterElementToFlowNode")) == old(ndirect(code("(*FlowNodeMapping).RegisterElementToFlowNode"))) + len(*subProcessElement.StartEvents()) + len(*subProcessElement.EndEvents()) + len(*subProcessElement.IntermediateCatchEvents()) + rk4
+//@   loop 5 range *subProcessElement.BusinessRuleTasks()
+//@     invariant ndirect(code("(*FlowNodeMapping).RegisterElementToFlowNode")) == old(ndirect(code("(*FlowNodeMapping).RegisterElementToFlowNode"))) + len(*subProcessElement.StartEvents()) + len(*subProcessElement.EndEvents()) + len(*subProcessElement.IntermediateCatchEvents()) + len(*subProcessElement.IntermediateThrowEvents()) + rk5
+//@   loop 6 range *subProcessElement.CallActivities()
+//@     invariant ndirect(code("(*FlowNodeMapping).RegisterElementToFlowNode")) == old(ndirect(code("(*FlowNodeMapping).RegisterElementToFlowNode"))) + len(*subProcessElement.StartEvents()) + len(*subProcessElement.EndEvents()) + len(*subProcessElement.IntermediateCatchEvents()) + len(*subProcessElement.IntermediateThrowEvents()) + len(*subProcessElement.BusinessRuleTasks()) + rk6
+//@   loop 7 range *subProcessElement.Tasks()
+//@     invariant ndirect(code("(*FlowNodeMapping).RegisterElementToFlowNode")) == old(ndirect(code("(*FlowNodeMapping).RegisterElementToFlowNode"))) + len(*subProcessElement.StartEvents()) + len(*subProcessElement.EndEvents()) + len(*subProcessElement.IntermediateCatchEvents()) + len(*subProcessElement.IntermediateThrowEvents()) + len(*subProcessElement.BusinessRuleTasks()) + len(*subProcessElement.CallActivities()) + rk7
+//@   loop 8 range *subProcessElement.ManualTasks()
+//@     invariant ndirect(code("(*FlowNodeMapping).RegisterElementToFlowNode")) == old(ndirect(code("(*FlowNodeMapping).RegisterElementToFlowNode"))) + len(*subProcessElement.StartEvents()) + len(*subProcessElement.EndEvents()) + len(*subProcessElement.IntermediateCatchEvents()) + len(*subProcessElement.IntermediateThrowEvents()) + len(*subProcessElement.BusinessRuleTasks()) + len(*subProcessElement.CallActivities()) + len(*subProcessElement.Tasks()) + rk8
+//@   loop 9 range *subProcessElement.ServiceTasks()
+//@     invariant ndirect(code("(*FlowNodeMapping).RegisterElementToFlowNode")) == old(ndirect(code("(*FlowNodeMapping).RegisterElementToFlowNode"))) + len(*subProcessElement.StartEvents()) + len(*subProcessElement.EndEvents()) + len(*subProcessElement.IntermediateCatchEvents()) + len(*subProcessElement.IntermediateThrowEvents()) + len(*subProcessElement.BusinessRuleTasks()) + len(*subProcessElement.CallActivities()) + len(*subProcessElement.Tasks()) + len(*subProcessElement.ManualTasks()) + rk9
+//@   loop 10 range *subProcessElement.UserTasks()
+//@     invariant ndirect(code("(*FlowNodeMapping).RegisterElementToFlowNode")) == old(ndirect(code("(*FlowNodeMapping).RegisterElementToFlowNode"))) + len(*subProcessElement.StartEvents()) + len(*subProcessElement.EndEvents()) + len(*subProcessElement.IntermediateCatchEvents()) + len(*subProcessElement.IntermediateThrowEvents()) + len(*subProcessElement.BusinessRuleTasks()) + len(*subProcessElement.CallActivities()) + len(*subProcessElement.Tasks()) + len(*subProcessElement.ManualTasks()) + len(*subProcessElement.ServiceTasks()) + rk10
+//@   loop 11 range *subProcessElement.ReceiveTasks()
+//@     invariant ndirect(code("(*FlowNodeMapping).RegisterElementToFlowNode")) == old(ndirect(code("(*FlowNodeMapping).RegisterElementToFlowNode"))) + len(*subProcessElement.StartEvents()) + len(*subProcessElement.EndEvents()) + len(*subProcessElement.IntermediateCatchEvents()) + len(*subProcessElement.IntermediateThrowEvents()) + len(*subProcessElement.BusinessRuleTasks()) + len(*subProcessElement.CallActivities()) + len(*subProcessElement.Tasks()) + len(*subProcessElement.ManualTasks()) + len(*subProcessElement.ServiceTasks()) + len(*subProcessElement.UserTasks()) + rk11
+//@   loop 12 range *subProcessElement.ScriptTasks()
+//@     invariant ndirect(code("(*FlowNodeMapping).RegisterElementToFlowNode")) == old(ndirect(code("(*FlowNodeMapping).RegisterElementToFlowNode"))) + len(*subProcessElement.StartEvents()) + len(*subProcessElement.EndEvents()) + len(*subProcessElement.IntermediateCatchEvents()) + len(*subProcessElement.IntermediateThrowEvents()) + len(*subProcessElement.BusinessRuleTasks()) + len(*subProcessElement.CallActivities()) + len(*subProcessElement.Tasks()) + len(*subProcessElement.ManualTasks()) + len(*subProcessElement.ServiceTasks()) + len(*subProcessElement.UserTasks()) + len(*subProcessElement.ReceiveTasks()) + rk12
+//@   loop 13 range *subProcessElement.SendTasks()
+//@     invariant ndirect(code("(*FlowNodeMapping).RegisterElementToFlowNode")) == old(ndirect(code("(*FlowNodeMapping).RegisterElementToFlowNode"))) + len(*subProcessElement.StartEvents()) + len(*subProcessElement.EndEvents()) + len(*subProcessElement.IntermediateCatchEvents()) + len(*subProcessElement.IntermediateThrowEvents()) + len(*subProcessElement.BusinessRuleTasks()) + len(*subProcessElement.CallActivities()) + len(*subProcessElement.Tasks()) + len(*subProcessElement.ManualTasks()) + len(*subProcessElement.ServiceTasks()) + len(*subProcessElement.UserTasks()) + len(*subProcessElement.ReceiveTasks()) + len(*subProcessElement.ScriptTasks()) + rk13
+//@   loop 14 range *subProcessElement.SubProcesses()
+//@     invariant ndirect(code("(*FlowNodeMapping).RegisterElementToFlowNode")) == old(ndirect(code("(*FlowNodeMapping).RegisterElementToFlowNode"))) + len(*subProcessElement.StartEvents()) + len(*subProcessElement.EndEvents()) + len(*subProcessElement.IntermediateCatchEvents()) + len(*subProcessElement.IntermediateThrowEvents()) + len(*subProcessElement.BusinessRuleTasks()) + len(*subProcessElement.CallActivities()) + len(*subProcessElement.Tasks()) + len(*subProcessElement.ManualTasks()) + len(*subProcessElement.ServiceTasks()) + len(*subProcessElement.UserTasks()) + len(*subProcessElement.ReceiveTasks()) + len(*subProcessElement.ScriptTasks()) + len(*subProcessElement.SendTasks()) + rk14
+//@   loop 15 range *subProcessElement.ExclusiveGateways()
+//@     invariant ndirect(code("(*FlowNodeMapping).RegisterElementToFlowNode")) == old(ndirect(code("(*FlowNodeMapping).RegisterElementToFlowNode"))) + len(*subProcessElement.StartEvents()) + len(*subProcessElement.EndEvents()) + len(*subProcessElement.IntermediateCatchEvents()) + len(*subProcessElement.IntermediateThrowEvents()) + len(*subProcessElement.BusinessRuleTasks()) + len(*subProcessElement.CallActivities()) + len(*subProcessElement.Tasks()) + len(*subProcessElement.ManualTasks()) + len(*subProcessElement.ServiceTasks()) + len(*subProcessElement.UserTasks()) + len(*subProcessElement.ReceiveTasks()) + len(*subProcessElement.ScriptTasks()) + len(*subProcessElement.SendTasks()) + len(*subProcessElement.SubProcesses()) + rk15
+//@   loop 16 range *subProcessElement.InclusiveGateways()
+//@     invariant ndirect(code("(*FlowNodeMapping).RegisterElementToFlowNode")) == old(ndirect(code("(*FlowNodeMapping).RegisterElementToFlowNode"))) + len(*subProcessElement.StartEvents()) + len(*subProcessElement.EndEvents()) + len(*subProcessElement.IntermediateCatchEvents()) + len(*subProcessElement.IntermediateThrowEvents()) + len(*subProcessElement.BusinessRuleTasks()) + len(*subProcessElement.CallActivities()) + len(*subProcessElement.Tasks()) + len(*subProcessElement.ManualTasks()) + len(*subProcessElement.ServiceTasks()) + len(*subProcessElement.UserTasks()) + len(*subProcessElement.ReceiveTasks()) + len(*subProcessElement.ScriptTasks()) + len(*subProcessElement.SendTasks()) + len(*subProcessElement.SubProcesses()) + len(*subProcessElement.ExclusiveGateways()) + rk16
+//@   loop 17 range *subProcessElement.ParallelGateways()
+//@     invariant ndirect(code("(*FlowNodeMapping).RegisterElementToFlowNode")) == old(ndirect(code("(*FlowNodeMapping).RegisterElementToFlowNode"))) + len(*subProcessElement.StartEvents()) + len(*subProcessElement.EndEvents()) + len(*subProcessElement.IntermediateCatchEvents()) + len(*subProcessElement.IntermediateThrowEvents()) + len(*subProcessElement.BusinessRuleTasks()) + len(*subProcessElement.CallActivities()) + len(*subProcessElement.Tasks()) + len(*subProcessElement.ManualTasks()) + len(*subProcessElement.ServiceTasks()) + len(*subProcessElement.UserTasks()) + len(*subProcessElement.ReceiveTasks()) + len(*subProcessElement.ScriptTasks()) + len(*subProcessElement.SendTasks()) + len(*subProcessElement.SubProcesses()) + len(*subProcessElement.ExclusiveGateways()) + len(*subProcessElement.InclusiveGateways()) + rk17
+//@   loop 18 range *subProcessElement.EventBasedGateways()
+//@     invariant ndirect(code("(*FlowNodeMapping).RegisterElementToFlowNode")) == old(ndirect(code("(*FlowNodeMapping).RegisterElementToFlowNode"))) + len(*subProcessElement.StartEvents()) + len(*subProcessElement.EndEvents()) + len(*subProcessElement.IntermediateCatchEvents()) + len(*subProcessElement.IntermediateThrowEvents()) + len(*subProcessElement.BusinessRuleTasks()) + len(*subProcessElement.CallActivities()) + len(*subProcessElement.Tasks()) + len(*subProcessElement.ManualTasks()) + len(*subProcessElement.ServiceTasks()) + len(*subProcessElement.UserTasks()) + len(*subProcessElement.ReceiveTasks()) + len(*subProcessElement.ScriptTasks()) + len(*subProcessElement.SendTasks()) + len(*subProcessElement.SubProcesses()) + len(*subProcessElement.ExclusiveGateways()) + len(*subProcessElement.InclusiveGateways()) + len(*subProcessElement.ParallelGateways()) + rk18
